@@ -2,6 +2,7 @@ package eng
 
 import (
 	"fmt"
+	"math/big"
 	"sort"
 )
 
@@ -261,6 +262,29 @@ func solveFor(p, bv, target *Term) *Term {
 		case has(b) && !has(a):
 			return solveFor(b, bv, Sub(a, target))
 		}
+	case "*":
+		// c * x == c * t  =>  x == t   (only the syntactically divisible case)
+		a, b := p.Args[0], p.Args[1]
+		if b.Op == "int" && has(a) {
+			a, b = b, a
+		}
+		if a.Op == "int" && a.IV.Sign() != 0 && has(b) {
+			if target.Op == "*" {
+				ta, tb := target.Args[0], target.Args[1]
+				if tb.Op == "int" {
+					ta, tb = tb, ta
+				}
+				if ta.Op == "int" && ta.IV.Cmp(a.IV) == 0 {
+					return solveFor(b, bv, tb)
+				}
+			}
+			if target.Op == "int" {
+				q, r := new(big.Int).QuoRem(target.IV, a.IV, new(big.Int))
+				if r.Sign() == 0 {
+					return solveFor(b, bv, BigLit(q))
+				}
+			}
+		}
 	}
 	return nil
 }
@@ -269,13 +293,39 @@ func solveFor(p, bv, target *Term) *Term {
 // subformulas, over the index terms that occur in the query. Every added formula
 // is valid, so this is sound in any polarity.
 func Instantiate(asserts []*Term, rounds int, capPerQuant int) []*Term {
+	return InstantiateSeeded(asserts, rounds, capPerQuant, 0)
+}
+
+// InstantiateSeeded: with seedRoots > 0 only the index terms of the last
+// seedRoots assertions (path condition and negated goal) and of the instances
+// generated so far are used as instantiation candidates (goal-directed).
+func InstantiateSeeded(asserts []*Term, rounds int, capPerQuant int, seedRoots int) []*Term {
 	out := append([]*Term{}, asserts...)
 	done := map[[2]*Term]bool{}
+	var generated []*Term
 	for r := 0; r < rounds; r++ {
 		ic := &instCtx{byArr: map[*Term]map[*Term]bool{}, ground: map[string]map[*Term]bool{}, quants: map[*Term]bool{}, seen: map[*Term]bool{}}
 		bmemo := map[*Term]bool{}
-		for _, a := range out {
-			ic.scan(a, bmemo)
+		if seedRoots > 0 {
+			// quantifiers from everywhere, ground terms only from the seeds
+			qc := &instCtx{byArr: map[*Term]map[*Term]bool{}, ground: map[string]map[*Term]bool{}, quants: map[*Term]bool{}, seen: map[*Term]bool{}}
+			for _, a := range out {
+				qc.scan(a, bmemo)
+			}
+			n := len(asserts)
+			for i := n - seedRoots; i < n; i++ {
+				if i >= 0 {
+					ic.scan(out[i], bmemo)
+				}
+			}
+			for _, gt := range generated {
+				ic.scan(gt, bmemo)
+			}
+			ic.quants = qc.quants
+		} else {
+			for _, a := range out {
+				ic.scan(a, bmemo)
+			}
 		}
 		var qs []*Term
 		for q := range ic.quants {
@@ -297,7 +347,14 @@ func Instantiate(asserts []*Term, rounds int, capPerQuant int) []*Term {
 							continue
 						}
 						var gs []*Term
-						for t := range ic.byArr[pt.Args[0]] {
+						src := ic.byArr[pt.Args[0]]
+						if pt.Args[1] == bv {
+							// pattern select(A, k): the array A may be reached through merged or
+							// stored heap versions, so every index read from an array of A's sort
+							// is a candidate (instances are cheap: k := index)
+							src = ic.ground[pt.Args[0].S.String()]
+						}
+						for t := range src {
 							gs = append(gs, t)
 						}
 						sort.Slice(gs, func(i, j int) bool { return gs[i].id < gs[j].id })
@@ -330,6 +387,17 @@ func Instantiate(asserts []*Term, rounds int, capPerQuant int) []*Term {
 					cands[bi] = nil
 				}
 			}
+			// goal skolems first, small terms first
+			for bi := range cands {
+				c := cands[bi]
+				sort.SliceStable(c, func(i, j int) bool {
+					si, sj := hasSkolem(c[i]), hasSkolem(c[j])
+					if si != sj {
+						return si
+					}
+					return termSize(c[i]) < termSize(c[j])
+				})
+			}
 			// cartesian product (capped)
 			idx := make([]int, len(q.Bound))
 			count := 0
@@ -352,6 +420,7 @@ func Instantiate(asserts []*Term, rounds int, capPerQuant int) []*Term {
 					done[dk] = true
 					inst := Subst(body, m)
 					insts[q] = append(insts[q], inst)
+					generated = append(generated, inst)
 					added++
 					count++
 				}
@@ -470,4 +539,37 @@ func substQuant(t *Term, m map[*Term]*Term) *Term {
 		return r
 	}
 	return rec(t)
+}
+
+var skMemo = map[*Term]bool{}
+
+func hasSkolem(t *Term) bool {
+	if v, ok := skMemo[t]; ok {
+		return v
+	}
+	r := t.Op == "const" && len(t.Name) > 6 && t.Name[:6] == "vp_sk!"
+	if !r {
+		for _, a := range t.Args {
+			if hasSkolem(a) {
+				r = true
+				break
+			}
+		}
+	}
+	skMemo[t] = r
+	return r
+}
+
+var sizeMemo = map[*Term]int{}
+
+func termSize(t *Term) int {
+	if v, ok := sizeMemo[t]; ok {
+		return v
+	}
+	n := 1
+	for _, a := range t.Args {
+		n += termSize(a)
+	}
+	sizeMemo[t] = n
+	return n
 }
